@@ -94,7 +94,8 @@ def run_case(case):
     bad = []
     try:
         with time_limit(300):
-            run = pl.run_program(d, 'separate', ['-d', 600])
+            # (every fifth set with the finest secondary resolution the option allows: 1 bp divides every lattice)
+            run = pl.run_program(d, 'separate', ['-d', 600] + (['-r2', 1] if seed % 5 == 2 else []))
         if run.error:
             return case, [('no_exception', run.error[-300:])], 0
         _, recs = pl.parse_xmap_text(run.files.get('', ''))
@@ -234,7 +235,7 @@ def bounded_program(repo, tier, seed):
             key = f"{RUN}::monitor::C11::{clause}"
             viol.setdefault(key, dict(key=key, blame=RUN, input=dict(seed=case[0]), observed=detail, required='C11 statement'))
     return result(tot, tot, "1-2 references of 50-110 labels on a 1400-bp lattice (a multiple of both correlation resolutions), 6 queries per set (exact, noisy with "
-                            "missing/extra lattice labels, indel of 2-14 lattice steps; in 70% of the sets a cross-strand decoy: true hit with a weak seed on one strand, a strong pair-less seed on the other), each run together with its mirror image, maxPairDistance 600 (below half the "
+                            "missing/extra lattice labels, indel of 2-14 lattice steps; in 70% of the sets a cross-strand decoy: true hit with a weak seed on one strand, a strong pair-less seed on the other), each run together with its mirror image, maxPairDistance 600, every fifth set with -r2 1 (below half the "
                             "step: no equidistant ties), coordinates inside a molecule distinct; 'separate' mode, first-pass file; every pair (query, mirror) is a case",
                   [dict(seed=cases[0][0])], list(viol.values())[:5], exhaustive=False, bounds=f"{n} sets x 6 query/mirror pairs")
 
